@@ -254,8 +254,12 @@ def run_check(check, tier, seed, jobs=None):
         "samples": jsonable(spread(total.samples, 8)) or ["(none)"],
         "exhaustive": True,
         "evaluations": total.evals,
-        "distinct_nontrivial": total.states,
-        "rule": check.rule,
+        "distinct_nontrivial": total.extra.get("nontrivial", total.states),
+        "rule": check.rule + " || non-trivial: " + getattr(
+            check, "nontrivial_rule",
+            "every enumerated case is distinct by construction (nested "
+            "product over a catalogue, canonical key per case) and exercises "
+            "the real code; counted = distinct cases"),
         "groups": len(groups),
         "conformance_replays_S_to_R": total.conformance,
         "distinct_observed_outcomes": distinct_outcomes,
@@ -265,7 +269,8 @@ def run_check(check, tier, seed, jobs=None):
                              "identical digests",
     }
     for k, v in total.extra.items():
-        cov[k] = v
+        if k != "nontrivial":
+            cov[k] = v
     if total.notes:
         cov["notes"] = sorted(total.notes)
     if hasattr(check, "coverage_extra"):
